@@ -199,6 +199,9 @@ func (g *G) Mutator() string {
 		if r.Chance(1, 6) {
 			return fmt.Sprintf("subrefund %d", g.u.refunds[r.Intn(3)])
 		}
+		if r.Chance(1, 5) {
+			return "subrefund 0"
+		}
 		return fmt.Sprintf("addrefund %d", g.u.refunds[r.Intn(len(g.u.refunds))])
 	case 18:
 		n := r.Intn(3)
@@ -292,6 +295,63 @@ func (g *G) BoundaryPair() (setup []string, before, after string) {
 		before, after = pickTwo(op)
 	}
 	return
+}
+
+// QueryFor returns a reader aimed at what the mutator line `m` just wrote (same address / slot / key): random
+// queries over the universe rarely hit the one thing that changed, so the "true" / non-zero branches of the
+// readers were hardly reached.
+func (g *G) QueryFor(m string) string {
+	f := strings.Fields(m)
+	if len(f) < 2 {
+		return g.Query()
+	}
+	a := f[1]
+	pick := func(xs ...string) string { return xs[g.r.Intn(len(xs))] }
+	switch f[0] {
+	case "setnonce", "incnonce":
+		return pick("nonce "+a, "empty "+a, "exist "+a)
+	case "setdata", "setstate", "setstorage":
+		if len(f) < 3 {
+			return "exist " + a
+		}
+		if len(f[2]) == 64 {
+			return pick("getdata "+a+" "+f[2], "getstate "+a+" "+f[2], "committed "+a+" "+f[2], "allrefund "+a)
+		}
+		return pick("getdata "+a+" "+f[2], "empty "+a, "allrefund "+a)
+	case "setcode":
+		return pick("code "+a, "codesize "+a, "codehash "+a, "iscontract "+a)
+	case "suicide":
+		return pick("suicided "+a, "suicided "+a, "exist "+a, "bal "+a)
+	case "addbal", "subbal", "setbal":
+		return pick("bal "+a, "cantransfer "+a+" 1", "cantransfer "+a+" "+g.smallAmount())
+	case "transfer":
+		if len(f) > 2 {
+			return pick("bal "+a, "bal "+f[2])
+		}
+	case "addft", "subft", "setft":
+		if len(f) > 2 {
+			return pick("getft "+a+" "+f[2], "allrefund "+a, "empty "+a)
+		}
+	case "aladdr":
+		return "inal " + a
+	case "alslot":
+		if len(f) > 2 {
+			return pick("inalslot "+a+" "+f[2], "inal "+a)
+		}
+	case "tset":
+		if len(f) > 2 {
+			return "tget " + a + " " + f[2]
+		}
+	case "create":
+		return pick("exist "+a, "empty "+a)
+	case "addrefund", "subrefund":
+		return "refund"
+	case "addbinding":
+		if len(f) > 2 {
+			return pick("exist "+f[2], "allrefund "+f[2], "getdata "+f[2]+" 70")
+		}
+	}
+	return g.Query()
 }
 
 // Query returns one reader line.
